@@ -40,6 +40,10 @@ SIGNAL_TARGETS = [
      "vals": {0: [8, 8, 8], 1: [1, 1, 2], 2: [2, 1, 1], 3: [3, 3, 3]}, "forms": ["list"]},
     {"key": "pipeline.charge_measurement.stamp2.arguments.g", "src": "arg:g", "arity": 1,
      "vals": {0: 70, 1: 71, 2: 72, 3: 73}, "forms": ["list", "arange"]},
+    {"key": "pipeline.charge_measurement.stamp2.arguments.h", "src": "arg:h", "arity": 1,
+     "vals": {0: -1.5, 1: -2.5, 2: 1e3, 3: 1e-3}, "forms": ["list", "array"]},
+    {"key": "pipeline.charge_measurement.stamp2.arguments.k", "src": "arg:k", "arity": 1,
+     "vals": {0: "k0", 1: "k1", 2: "k2", 3: "k3"}, "forms": ["list"], "text": True},
 ]
 
 
@@ -53,19 +57,27 @@ def assign_targets(ocfg: dict, variant: int = 0, force: list | None = None) -> l
     ip = variant % len(PHOTON_TARGETS)
     isg = variant % len(SIGNAL_TARGETS)
     custom = ocfg["mode"] == "custom"
+
+    def usable(t):
+        # Named deviation DEV_TwoVectorLengths: without dask, two vector-valued parameters of
+        # different length make the merge of the per-run trees fail (both coordinates use the
+        # anonymous dimension 'dim_0'): an explicit error, not a wrong result - not generated.
+        if t in out or (custom and t.get("text")):
+            return False
+        return not (t["arity"] > 1 and any(o["arity"] > 1 for o in out))
+
     for p in ocfg["params"]:
+        pool, start = (PHOTON_TARGETS, ip) if p["sink"] == "photon" else (SIGNAL_TARGETS, isg)
+        t = None
+        for k in range(len(pool)):
+            cand = pool[(start + k) % len(pool)]
+            if usable(cand):
+                t = cand
+                break
         if p["sink"] == "photon":
-            for _ in range(len(PHOTON_TARGETS)):
-                t = PHOTON_TARGETS[ip % len(PHOTON_TARGETS)]
-                ip += 1
-                if t not in out and not (custom and t.get("text")):
-                    break
+            ip = start + k + 1
         else:
-            for _ in range(len(SIGNAL_TARGETS)):
-                t = SIGNAL_TARGETS[isg % len(SIGNAL_TARGETS)]
-                isg += 1
-                if t not in out:
-                    break
+            isg = start + k + 1
         out.append(t)
     return out
 
@@ -192,7 +204,7 @@ def build(ocfg: dict, variant: int = 0, delay: float = 0.0, exc: str = "ValueErr
     msg = "obs-fault " + json.dumps(ocfg.get("fault", []))
     a1 = {"a": 10, "v": [9, 9], "s": "zz", "acc": [1, 2, 3],
           "_p": {"decode": dec_ph, "delay": delay, "img": False}}
-    a2 = {"a": 7.0, "w": [8, 8, 8], "g": 70,
+    a2 = {"a": 7.0, "w": [8, 8, 8], "g": 70, "h": -1.5, "k": "k0",
           "_p": {"decode": dec_sg, "np": np_, "photon_js": [j for j, _ in dec_ph],
                  "fault": list(ocfg.get("fault") or []), "exc": exc, "msg": msg}}
     groups = {"photon_collection": [ModelFunction(func="harness.obs.stamp", name="stamp", arguments=a1)],
